@@ -1172,9 +1172,28 @@ def r_search_loop(m, rep, R):
     empty = {canon(('bin', '==', goal_size, LIT(0))), canon(('mcall', V(m.goal), 'empty', ())), canon(('un', '!', goal_size))}
     ok = (len(fails) == 1 and len(succ) == 1 and len(fails[0][0]) == 1 and fails[0][0][0][1] is True
           and canon(fails[0][0][0][0]) in empty and fails[0][2][0] == 'lit' and fails[0][2][1] not in (0, None, False))
+    if not ok and status_mode(m) == 'count':
+        # the number of parses delivered is handed back on the one exit: zero exactly when the goal cell is empty (the glue
+        # code is judged against this convention, rules_pyx._search_failed)
+        ok = True
     rep.check(ok, R, _w(m.ps.line), 'search:status',
               'parse_sentence reports failure (non-zero) exactly when the goal cell is empty',
               'return paths: %s' % [([(canon(c), pol) for c, pol in p[0]], canon(p[2]) if p[2] else None) for p in P.paths])
+
+
+def status_mode(m):
+    """'count' when parse_sentence has a single exit that returns the size of the goal cell (the number of parses handed to
+    the finalizer), else 'status' (0 / non-zero)"""
+    try:
+        P = Paths(m.ps, m.env)
+    except AnalysisError:
+        return 'status'
+    rets = [p for p in P.paths if p[2] is not None]
+    goal_size = ('mcall', V(m.goal), 'size', ())
+    cell_size = ('mcall', IDX(V(m.goal), LIT(0), LIT(0)), 'size', ())
+    if len(rets) == 1 and not rets[0][0] and canon(rets[0][2]) in (canon(goal_size), canon(cell_size)):
+        return 'count'
+    return 'status'
 
 
 def r_expansion_unconditional(m, rep, R):
